@@ -6,7 +6,7 @@ Init == c \in Configs
 Next == UNCHANGED c
 InvTable == /\ (Expected(c) = "refused") = (Refuser(c) # "none" /\ ~Unspecified(c))
             /\ (Expected(c) = "finite" => AdAvailable(c) /\ QedMethodOk(c) /\ N3loNfOk(c))
-            /\ (~AdAvailable(c) => Expected(c) = "refused")
+            /\ (~AdAvailable(c) /\ ~Degenerate(c) => Expected(c) = "refused")
             /\ (\A s \in Settings : Relevant(s, c) \in BOOLEAN)
 (* every refuser is used, every setting is irrelevant somewhere and relevant somewhere *)
 =============================================================================
